@@ -919,37 +919,36 @@ Proof.
   repeat (apply andb_true_iff in H as [H ?]).
   rename H0 into Hsd, H1 into Hnames, H2 into Gf, H3 into Gb, H4 into Gs, H5 into Hne, H6 into Hbf.
   apply Nat.eqb_eq in H. apply Nat.eqb_eq in Hbf.
-  set (L := length stem).
-  assert (HLpos : (0 < L)%nat) by (unfold L; destruct stem; [discriminate|cbn; lia]).
+  assert (HLpos : (0 < length stem)%nat) by (destruct stem; [discriminate|cbn; lia]).
   unfold print_str, yield_tree.
   replace (Nat.eqb (length stem) (length branch)) with true by (symmetry; apply Nat.eqb_eq; exact H).
   replace (Nat.eqb (length branch) (length final)) with true by (symmetry; apply Nat.eqb_eq; exact Hbf).
   cbn [andb].
   eexists. split; [reflexivity|].
   (* the lines *)
-  set (ys := yield_go (stem, branch, final) (repeat 32 (length stem)) [] (pre_info 0 false t)).
-  assert (Hmap : concat (map (fun x : str * str * str => let '(p, f, n) := x in p ++ f ++ n ++ [10]) ys)
-                 = concat (map (fun l => l ++ [10]) (map line_of ys))).
-  { rewrite map_map. f_equal. apply map_ext. intros [[p f] n]. cbn [line_of].
+  assert (Hmap : forall ys,
+             concat (map (fun x : str * str * str => let '(p, f, n) := x in p ++ f ++ n ++ [10]) ys)
+             = concat (map (fun l => l ++ [10]) (map line_of ys))).
+  { intros ys. rewrite map_map. f_equal. apply map_ext. intros [[p f] n]. cbn [line_of].
     rewrite <- !app_assoc. reflexivity. }
   rewrite Hmap. clear Hmap.
   assert (Hpn : Forall (fun x : nat * bool * str => pname (snd x)) (pre_info 0 false t)).
   { pose proof (pre_info_names print_name_ok t 0%nat false Hnames) as Hp.
     eapply Forall_impl; [|exact Hp]. intros x Hx. apply print_name_ok_pname. exact Hx. }
-  pose proof (yield_lines stem branch final L eq_refl (eq_sym H) (eq_sym (eq_trans H Hbf)) Gs Gb Gf
-                          (pre_info 0 false t) [] Hpn) as Hl.
-  fold ys in Hl. rewrite pre_info_pn in Hl.
+  pose proof (yield_lines stem branch final (length stem) eq_refl (eq_sym H) (eq_sym (eq_trans H Hbf))
+                          Gs Gb Gf (pre_info 0 false t) [] Hpn) as Hl.
+  rewrite pre_info_pn in Hl.
   destruct t as [g n a ks]. cbn [pn] in Hl. fold (pnf 1 ks) in Hl.
-  destruct (map line_of ys) as [|rootline lines] eqn:E2; [inversion Hl|]. Show.
-  assert (Hroot : line_ok L (0%nat, n) rootline) by (inversion Hl; assumption).
-  assert (Hrest : Forall2 (line_ok L) (pnf 1 ks) lines) by (inversion Hl; assumption).
-  assert (Hrl : rootline = n).
-  { destruct Hroot as [_ (P & -> & HP & _)]. cbn [fst snd] in HP. rewrite Nat.mul_0_r in HP.
-    destruct P; [reflexivity|discriminate]. }
-  subst rootline.
+  cbn [pre_info yield_go map line_of app] in Hl |- *.
+  match goal with
+  | |- context [map line_of ?Y] => set (lines := map line_of Y) in *
+  end.
+  change ((n ++ [10]) :: map (fun l : list N => l ++ [10]) lines)
+    with (map (fun l : list N => l ++ [10]) (n :: lines)).
+  assert (Hrest : Forall2 (line_ok (length stem)) (pnf 1 ks) lines) by (inversion Hl; assumption).
   assert (H10 : forallb no10 (n :: lines) = true /\ Forall (fun l => l <> []) (n :: lines)).
   { clear - Hl. induction Hl as [|dn line dns ls Hx Hxs IH]; [split; [reflexivity|constructor]|].
-    destruct IH as [I1 I2]. destruct (line_ok_no10 L dn line Hx) as [A B].
+    destruct IH as [I1 I2]. destruct (line_ok_no10 (length stem) dn line Hx) as [A B].
     split; [cbn [forallb]; rewrite A, I1; reflexivity|constructor; assumption]. }
   destruct H10 as [H10 Hnn].
   rewrite (concat_lines (n :: lines) ltac:(discriminate)).
@@ -959,7 +958,7 @@ Proof.
     destruct lines; discriminate. }
   destruct (joinl (n :: lines)) as [|c0 r0] eqn:Ej; [contradiction|]. rewrite <- Ej. clear Ej Hjn c0 r0.
   rewrite (split_joinl (n :: lines) ltac:(discriminate) H10).
-  rewrite (st_lines_none L HLpos (pnf 1 ks) lines (chain_pnf ks) Hrest).
+  rewrite (st_lines_none (length stem) HLpos (pnf 1 ks) lines (chain_pnf ks) Hrest).
   change ((0%nat, n) :: pnf 1 ks) with (pn 0 (T g n a ks)).
   rewrite (forest_of_pre_pn (T g n a ks) (S (length (pnf 1 ks)))) by (cbn [pn length]; unfold pnf; lia).
   rewrite (sib_dups_erase (T g n a ks) Hsd). reflexivity.
